@@ -21,6 +21,8 @@ pub enum VolKind {
     V16b,
     V32a,
     V32b,
+    /// FAT16 with 64-block (32 KiB) clusters at a large partition offset
+    V16c,
 }
 
 impl VolKind {
@@ -30,6 +32,14 @@ impl VolKind {
             VolKind::V16b => scen::g_v16b(),
             VolKind::V32a => scen::g_v32a(),
             VolKind::V32b => scen::g_v32b(),
+            VolKind::V16c => {
+                let mut g = scen::g_v16a();
+                g.spc = 64;
+                g.lba_start = 0x00F0_0001;
+                g.root_entries = 512;
+                g.clusters = 4200;
+                g
+            }
         }
     }
     pub fn name(&self) -> &'static str {
@@ -38,6 +48,7 @@ impl VolKind {
             VolKind::V16b => "V16b",
             VolKind::V32a => "V32a",
             VolKind::V32b => "V32b",
+            VolKind::V16c => "V16c",
         }
     }
 }
@@ -53,6 +64,7 @@ pub struct MutOpts {
     pub moving_clock: bool,
     pub alphabet: Alpha,
     pub victim: bool,
+    pub front: Front,
 }
 
 #[derive(Clone, Copy, Debug, PartialEq, Eq)]
@@ -67,8 +79,9 @@ pub enum Alpha {
 
 pub fn mut_name(o: &MutOpts, prefix: &str) -> String {
     format!(
-        "{}/{}-free{}-root{}-sub{}-{:?}-{:?}-d{}",
+        "{}{}/{}-free{}-root{}-sub{}-{:?}-{:?}-d{}",
         prefix,
+        if o.front == Front::Raw { String::new() } else { format!("-{:?}", o.front) },
         o.kind.name(),
         o.free.map(|f| f.to_string()).unwrap_or("many".into()),
         o.root_free_slots.map(|f| f.to_string()).unwrap_or("std".into()),
@@ -163,7 +176,7 @@ pub fn mut_scenario(o: &MutOpts, prefix: &str) -> Scenario {
     if o.victim {
         scen::add_victim(&mut img, &g, 1);
     }
-    let cfg = make_cfg(img, Front::Raw, o.moving_clock);
+    let cfg = make_cfg(img, o.front, o.moving_clock);
     let mut alpha = mut_alphabet(o.alphabet, g.cluster_bytes());
     if o.free.is_none() {
         // filling a volume with tens of thousands of free clusters says nothing new and costs seconds per call
@@ -195,6 +208,7 @@ fn base_opts(kind: VolKind, free: Option<usize>, depth: usize, alphabet: Alpha) 
         moving_clock: false,
         alphabet,
         victim: true,
+        front: Front::Raw,
     }
 }
 
@@ -830,6 +844,15 @@ fn fs_scenarios(tier: &str, prefix: &'static str, alphabet: Alpha, moving_clock:
             out.push(maker(o, prefix));
         }
     }
+    // 64-block clusters at a large partition offset (depth one less: every directory walk reads 64 blocks)
+    if prefix != "durable" {
+        let mut o = base_opts(VolKind::V16c, None, if quick { 3 } else { 4 }, alphabet);
+        o.moving_clock = moving_clock;
+        out.push(maker(o, prefix));
+        let mut o = base_opts(VolKind::V16c, Some(1), if quick { 3 } else { 4 }, alphabet);
+        o.moving_clock = moving_clock;
+        out.push(maker(o, prefix));
+    }
     out
 }
 
@@ -956,6 +979,17 @@ pub fn c02_def() -> HistProp {
         level: "model_checking",
         scenarios: |t| {
             let mut v = fs_scenarios(t, "durable", Alpha::Mutate, true).into_iter().filter(|(n, _)| n.contains("freemany") || n.contains("free3") || n.contains("free1")).collect::<Vec<_>>();
+            {
+                // closing by dropping the RAII wrappers (Drop = close ignoring the error), volumes via open_volume
+                let mut o = base_opts(VolKind::V16a, None, if t == "quick" { 3 } else { 4 }, Alpha::Mutate);
+                o.moving_clock = true;
+                o.front = Front::Drop;
+                v.push(maker(o, "durable"));
+                let mut o = base_opts(VolKind::V32a, Some(1), if t == "quick" { 3 } else { 4 }, Alpha::Mutate);
+                o.moving_clock = true;
+                o.front = Front::Raii;
+                v.push(maker(o, "durable"));
+            }
             if t != "quick" {
                 // deeper on a reduced volume set
                 let mut o = base_opts(VolKind::V16a, None, 5, Alpha::Mutate);
